@@ -129,6 +129,43 @@ def check_case_log(rep, case):
                 return
 
 
+def dict_collisions(rep):
+    """Two ports of one process wired to one store, both updating the same
+    dictionary-valued variable: every one of the updates is applied, as it was
+    returned (the variable's updater keeps what it receives)."""
+    from vivarium.core.engine import Engine
+
+    class Two(tc.Process):
+        defaults = {'u1': None, 'u2': None}
+
+        def ports_schema(self):
+            leaf = {'_default': (), '_updater': tc.log_updater}
+            return {'p1': {'d': dict(leaf)}, 'p2': {'d': dict(leaf)}}
+
+        def next_update(self, timestep, states):
+            return {'p1': {'d': self.parameters['u1']}, 'p2': {'d': self.parameters['u2']}}
+    for u1, u2 in (({'k1': 1}, {'k2': 2}), ({'x': 1}, {'x': 2}), ({'k': {'a': 1}}, {'k': {'b': 2}})):
+        rep.evaluations += 1
+        sig = {'kind': 'dict-collision', 'updates': json.dumps([u1, u2], sort_keys=True)}
+        try:
+            eng = Engine(processes={'p': Two({'u1': u1, 'u2': u2})},
+                         topology={'p': {'p1': ('s',), 'p2': ('s',)}},
+                         display_info=False, emitter='null')
+            eng.update(1)
+            got = eng.state.get_path(('s', 'd')).value
+        except Exception as e:
+            rep.violation(dict(sig, what='raised'),
+                          'C06 two ports on one store updating one dictionary-valued variable '
+                          'with %r and %r raised %r' % (u1, u2, e), {})
+            continue
+        if sorted(map(repr, got)) != sorted(map(repr, (u1, u2))):
+            rep.violation(dict(sig, received=json.dumps(list(got), sort_keys=True, default=str)),
+                          'C06 two ports of one process wired to one store return the updates '
+                          '%r and %r for the same dictionary-valued variable: the variable '
+                          'received %r' % (u1, u2, list(got)), {})
+        rep.nontrivial.add('dict-collision-' + sig['updates'])
+
+
 class Holder(tc.Process):
     """declares the variables of the rewire targets"""
     defaults = {'names': ['a']}
@@ -288,6 +325,7 @@ def check(prop, tier, seed):
         # directors, the observer and the watcher step read each tick of a
         # structural history must be the nodes their updates go to (StoreTrace.tla,
         # rules view / zview)
+        rep.guard(dict_collisions, rep, what='colliding dictionary-valued updates')
         from vv import props_store
         hs = props_store.histories(tier, seed)
         hs = hs[-(260 if tier == 'quick' else 2000):]
